@@ -159,8 +159,8 @@ if (!goog.format) {
 
         // If hit maxCharsBetweenWordBreaks, and not space next, then add <wbr>.
         if (numCharsWithoutBreak >= maxCharsBetweenWordBreaks &&
-            // space
-            charCode != 32) {
+            // space (and never between the two halves of a surrogate pair)
+            charCode != 32 && !(charCode >= 0xDC00 && charCode <= 0xDFFF)) {
           resultArr[resultArrLen++] = str.substring(flushIndex, i);
           flushIndex = i;
           resultArr[resultArrLen++] = goog.format.WORD_BREAK;
